@@ -117,7 +117,7 @@ func runConcurrent(c *core.Ctx) {
 	c.Count("concurrent_evaluations", int(evals.Load()))
 	c.Key("concurrent/%s/%d/%s", sh.Matching, workers, sheetDesc(sh))
 	if c.Idx < 2 {
-		c.Sample(map[string]any{"sheet": sh.Text, "reads": len(items), "goroutines": workers, "matching": sh.Matching})
+		c.Sample(map[string]any{"sheet": sheetShown(sh), "reads": len(items), "goroutines": workers, "matching": sh.Matching})
 	}
 	seen := map[string]bool{}
 	for b := range found {
